@@ -81,3 +81,16 @@ Lemma operator_when_unbound_witness :
   lex_all [key_a; key_b] inp_a_minus_b = Some [KName key_a; KSym 45; KName key_b] /\
   lex_all [key_a; key_b; key_a_minus_b] inp_a_minus_b = Some [KName key_a_minus_b].
 Proof. split; vm_compute; reflexivity. Qed.
+
+(* only the first part is bound (e.g. a and b bound, `a - b` written): the token is that part alone and the lexer resumes right
+   after it, so the symbol that follows is read as an operator *)
+Lemma operator_when_unbound : forall keys inp pos parts cps endpos,
+  collect inp pos = (parts, cps, endpos) ->
+  (match parts with p :: _ => str_eqb p str_item | [] => false end) = false ->
+  1 <= length parts -> bound keys parts 1 -> (forall j, 1 < j <= length parts -> ~ bound keys parts j) ->
+  lex_name keys false inp pos = LName (name_new (firstn 1 parts)) (S (nth 0 cps 0)).
+Proof.
+  intros keys inp pos parts cps endpos Hc Hi Hl Hb Hn.
+  destruct (lex_name_longest keys inp pos parts cps endpos Hc Hi) as [H _].
+  exact (H 1 (conj (le_n 1) Hl) Hb Hn).
+Qed.
